@@ -76,6 +76,112 @@ def addUsize (a b : Nat) : Res Nat := if a + b > usizeMax then .panic else .ok (
 /-- `a - b` on `usize` with overflow checks -/
 def subUsize (a b : Nat) : Res Nat := if a < b then .panic else .ok (a - b)
 
+def mulUsize (a b : Nat) : Res Nat := if a * b > usizeMax then .panic else .ok (a * b)
+/-- `a / b`, `a % b`: division by zero panics -/
+def divUsize (a b : Nat) : Res Nat := if b = 0 then .panic else .ok (a / b)
+def modUsize (a b : Nat) : Res Nat := if b = 0 then .panic else .ok (a % b)
+
+/-- `u8` arithmetic with overflow checks -/
+def addU8 (a b : Nat) : Res Nat := if a + b > 255 then .panic else .ok (a + b)
+def subU8 (a b : Nat) : Res Nat := if a < b then .panic else .ok (a - b)
+def mulU8 (a b : Nat) : Res Nat := if a * b > 255 then .panic else .ok (a * b)
+
+/-- `u32` arithmetic with overflow checks -/
+def addU32 (a b : Nat) : Res Nat := if a + b > 4294967295 then .panic else .ok (a + b)
+def subU32 (a b : Nat) : Res Nat := if a < b then .panic else .ok (a - b)
+def mulU32 (a b : Nat) : Res Nat := if a * b > 4294967295 then .panic else .ok (a * b)
+
+/-- `a << n`, `a >> n` on `u64` with overflow checks: the shift amount must be below 64 -/
+def shlU64 (a : BitVec 64) (n : Nat) : Res (BitVec 64) := if n ≥ 64 then .panic else .ok (a <<< n)
+def shrU64 (a : BitVec 64) (n : Nat) : Res (BitVec 64) := if n ≥ 64 then .panic else .ok (a >>> n)
+
+/-- `u128::trailing_zeros` of a value that was widened from a `u64` (128 for zero) -/
+def tz128 (n : Nat) : Nat := if n = 0 then 128 else ((List.range 128).find? (fun i => n.testBit i)).getD 128
+
+/-- iteration bound of a translated `while` loop: far above anything a 64-bit word can need.  A loop that is
+still running after `loopFuel` rounds is rendered as a panic; the agreement theorems show it is never reached. -/
+def loopFuel : Nat := 4096
+
+/-- `while cond(st) { st = body(st) }` where the body can panic -/
+def whileM {σ : Type} (fuel : Nat) (st : σ) (cond : σ → Bool) (body : σ → Res σ) : Res σ :=
+  match fuel with
+  | 0 => .panic
+  | fuel + 1 => bif cond st then Res.bind (body st) (fun st' => whileM fuel st' cond body) else .ok st
+
+/-- the same with a body that cannot panic (out of fuel: the state reached) -/
+def whileP {σ : Type} (fuel : Nat) (st : σ) (cond : σ → Bool) (body : σ → σ) : σ :=
+  match fuel with
+  | 0 => st
+  | fuel + 1 => bif cond st then whileP fuel (body st) cond body else st
+
+/-- `Iterator::step_by(n)`: the first element and then every `n`-th (`n = 0` panics in Rust; rendered as the list itself) -/
+def stepBy {α : Type} (n : Nat) (l : List α) : List α :=
+  match l with
+  | [] => []
+  | a :: rest => a :: stepBy n (rest.drop (n - 1))
+termination_by l.length
+decreasing_by simp [List.length_drop]; omega
+
+/-- `Iterator::enumerate` -/
+def enumerateFrom {α : Type} (n : Nat) : List α → List (Nat × α)
+  | [] => []
+  | a :: rest => (n, a) :: enumerateFrom (n + 1) rest
+
+def enumerate {α : Type} (l : List α) : List (Nat × α) := enumerateFrom 0 l
+
+/-- `str::split(c)`: the segments between occurrences of `c` (always at least one segment) -/
+def splitOn (c : Char) : List Char → List (List Char)
+  | [] => [[]]
+  | x :: xs =>
+    if x = c then [] :: splitOn c xs
+    else match splitOn c xs with
+      | seg :: rest => (x :: seg) :: rest
+      | [] => [[x]]
+
+/-- `for x in l { .. return r .. ; acc = .. }`: `Sum.inl r` as soon as the body returns, else `Sum.inr` of the state -/
+def forRetM {α σ ρ : Type} (l : List α) (init : σ) (f : σ → α → Res (ρ ⊕ σ)) : Res (ρ ⊕ σ) :=
+  match l with
+  | [] => .ok (.inr init)
+  | a :: rest => Res.bind (f init a) (fun r => match r with
+      | .inl x => .ok (.inl x)
+      | .inr s => forRetM rest s f)
+
+def forRetP {α σ ρ : Type} (l : List α) (init : σ) (f : σ → α → ρ ⊕ σ) : ρ ⊕ σ :=
+  match l with
+  | [] => .inr init
+  | a :: rest => match f init a with
+      | .inl x => .inl x
+      | .inr s => forRetP rest s f
+
+/-- `&v[..n]`: panics when `n` exceeds the length -/
+def sliceTo {α : Type} (l : List α) (n : Nat) : Res (List α) := if n > l.length then .panic else .ok (l.take n)
+
+/-- `&v[n..]`: panics when `n` exceeds the length -/
+def sliceFrom {α : Type} (l : List α) (n : Nat) : Res (List α) := if n > l.length then .panic else .ok (l.drop n)
+
+def isAsciiDigit (c : Char) : Bool := Nat.ble 48 c.toNat && Nat.ble c.toNat 57
+
+/-- `char::to_digit(radix)` for radix 10 (other radices: digits and letters below the radix) -/
+def toDigit (c : Char) (radix : Nat) : Option Nat :=
+  let v := if isAsciiDigit c then c.toNat - 48
+    else if Nat.ble 97 c.toNat && Nat.ble c.toNat 122 then c.toNat - 97 + 10
+    else if Nat.ble 65 c.toNat && Nat.ble c.toNat 90 then c.toNat - 65 + 10
+    else radix
+  if v < radix then some v else none
+
+/-- `str::parse::<usize>()`: an optional leading `+`, then at least one ASCII digit, value at most `usize::MAX` -/
+def stripPlus : List Char → List Char
+  | '+' :: rest => rest
+  | t => t
+
+def parseUsize (t : List Char) : Option Nat :=
+  let ds := stripPlus t
+  if ds.isEmpty then none
+  else if ds.all isAsciiDigit then
+    let v := ds.foldl (fun acc c => acc * 10 + (c.toNat - 48)) 0
+    if v ≤ usizeMax then some v else none
+  else none
+
 /-- `v[i]` on a slice / array / `Vec` -/
 def index {α : Type} (l : List α) (i : Nat) : Res α :=
   match l[i]? with
